@@ -677,7 +677,22 @@ where
             for &child in &children {
                 debug_assert_ne!(child, 0);
                 let e = manager.clone_edge(&nodes[child.unsigned_abs() - 1]);
-                child_edges.push(if child < 0 { complement(manager, e)? } else { e });
+                child_edges.push(if child < 0 {
+                    let e = complement(manager, e)?;
+                    // For decision diagrams without complement edges, the
+                    // complement may depend on variables above the child
+                    // (e.g., in ZBDDs on all variables).
+                    let child_level = manager.get_node(&e).level();
+                    if level >= child_level {
+                        manager.drop_edge(e);
+                        return err(format!(
+                            "node level must be less than the level of the complemented child ({level} >= {child_level}, line {line_no})",
+                        ));
+                    }
+                    e
+                } else {
+                    e
+                });
             }
             <M::Rules as DiagramRules<_, _, _>>::reduce(manager, level, child_edges.into_vec())
                 .then_insert(manager, level)?
@@ -760,7 +775,6 @@ where
             manager,
             manager.clone_edge(&nodes[idx(&mut input, node_id, e_code)?]),
         );
-        let e_level = manager.get_node(&e).level();
         let e = if e_complement {
             match complement(manager, e.into_edge()) {
                 Ok(e) => EdgeDropGuard::new(manager, e),
@@ -771,6 +785,8 @@ where
         } else {
             e
         };
+        // level of the (possibly complemented) else child
+        let e_level = manager.get_node(&e).level();
 
         let vid = match var_code {
             Code::Terminal => unreachable!(),
